@@ -121,14 +121,14 @@ C12(i) ==
                               /\ o.grid[c[1]][c[2]][3] = B2F(s.tail[c[1]][c[2]])>> }
    ELSE {})
   \cup
-  (IF ~e.pl /\ ObsGridShape(o.grid) /\ Decodable(s) /\ PosInGrid(s.fruit_position)
+  (IF ~e.pl /\ ObsGridShape(o.grid) /\ InBounds(s)
       /\ (IsReset(i) \/ (PreOK(i) /\ Legal(Pre(i), e.a)))
    THEN { <<"C12.obs_field_grid.body", ObsBody(o.grid, s)>>,
           <<"C12.obs_field_grid.head", ObsHead(o.grid, s)>>,
           <<"C12.obs_field_grid.tail", ObsTail(o.grid, s)>>,
           <<"C12.obs_field_grid.fruit", ObsFruit(o.grid, s)>>,
           <<"C12.obs_field_grid.norm_body_state", ObsNorm(o.grid, s)>> }
-        \cup (IF e.ts.type # LAST THEN { <<"C12.obs_field_action_mask.is_legal_moves", o.action_mask = Mask(s)>> } ELSE {})
+        \cup (IF e.ts.type # LAST THEN { <<"C12.obs_field_action_mask.is_legal_moves", Decodable(s) /\ o.action_mask = Mask(s)>> } ELSE {})
    ELSE {})
 
 Clauses(i) ==
